@@ -52,6 +52,8 @@ type Scn struct {
 	// (step `crel i`; a release that comes first makes the Close instantaneous)
 	Slow  []int  `json:"slow_close,omitempty"`
 	Steps []Step `json:"steps"`
+	// fam "smerge-stress": a configuration of the real-threads phase (stress_test.go), not a bubble scenario
+	Stress *stressCfg `json:"stress,omitempty"`
 }
 
 func (s Scn) slow(i int) bool {
@@ -1802,6 +1804,12 @@ func TestVerif(t *testing.T) {
 		if err := vlib.ReplayCase(env.Replay, &sc); err != nil {
 			t.Fatalf("cannot read replay: %v", err)
 		}
+		if sc.Fam == "smerge-stress" && sc.Stress != nil {
+			if !replayStressCase(*sc.Stress) {
+				t.Fail()
+			}
+			return
+		}
 		o := exec(t, sc)
 		for _, l := range o.lines {
 			fmt.Println("  ", l)
@@ -1831,6 +1839,10 @@ func TestVerif(t *testing.T) {
 		res.Count("corpus")
 		runScn(t, ms, res, sc, true) // a failing corpus case is shrunk like any other (on a green tree this costs nothing)
 	}
+
+	// real threads: one input fails while its siblings are parked on contexts derived from Merge's (stress_test.go)
+	stressPhase(res, env)
+	res.Write(env.Out)
 
 	// inputs whose Close takes time x {error while siblings are parked, normal end, Close}: every run
 	for _, sc := range directedSlowClose() {
